@@ -1,7 +1,7 @@
 
 // ---- driver for the wait queues (WaitLists / append_to_waitlist / DoraThread link operations, cut verbatim above) ----
-// Sequential executable contract: per object a FIFO queue of waiting threads; a thread is "blocking" exactly while it is queued;
-// wakeup(obj) releases exactly the longest-waiting thread of obj, wakeup_all(obj) releases all of them, a notification
+// Sequential executable contract: per object a set of waiting threads (the code keeps them in a FIFO queue; the order is not demanded); a thread is "blocking" exactly while it is queued;
+// wakeup(obj) releases exactly one waiting thread of obj, wakeup_all(obj) releases all of them, a notification
 // without waiter changes nothing, a conditional enqueue whose condition is false enqueues nobody; moving collections
 // (keys rewritten through visit_roots + epoch change) do not lose or reorder waiters.
 use std::collections::VecDeque;
@@ -29,9 +29,15 @@ pub fn run_wait_ops(nthreads: usize, ops: &[WOp]) -> Result<(), String> {
             }
             WOp::Wakeup(obj) => {
                 wl.wakeup(Address::from(obj));
+                // exactly ONE waiter of this object is released (the property does not prescribe which; the code happens to be FIFO)
                 let mut drop_key = false;
                 if let Some(q) = model.get_mut(&obj) {
-                    if let Some(t) = q.pop_front() { queued[t] = false; }
+                    let released: Vec<usize> = q.iter().cloned().filter(|&t| !is_blocking(threads[t])).collect();
+                    if released.len() != 1 {
+                        return Err(format!("op #{} wakeup({:#x}) released {} of the {} waiters of that object (expected exactly one)", i, obj, released.len(), q.len()));
+                    }
+                    q.retain(|&t| t != released[0]);
+                    queued[released[0]] = false;
                     drop_key = q.is_empty();
                 }
                 if drop_key { model.remove(&obj); }
@@ -66,17 +72,16 @@ pub fn run_wait_ops(nthreads: usize, ops: &[WOp]) -> Result<(), String> {
             }
         }
     }
-    // drain: one wakeup per waiter releases them in FIFO order
+    // drain: every wakeup releases exactly one more waiter until nobody waits
     let objs: Vec<usize> = model.keys().cloned().collect();
     for obj in objs {
         let q = model.remove(&obj).unwrap();
-        for (n, t) in q.iter().enumerate() {
+        for n in 0..q.len() {
             wl.wakeup(Address::from(obj));
-            for (m, u) in q.iter().enumerate() {
-                let want = m > n;
-                if is_blocking(threads[*u]) != want { return Err(format!("draining object {:#x}: after {} wakeups thread {} (position {} in the queue) is {}", obj, n + 1, u, m, if want { "released too early" } else { "still blocked" })); }
+            let still = q.iter().filter(|&&u| is_blocking(threads[u])).count();
+            if still != q.len() - n - 1 {
+                return Err(format!("draining object {:#x}: after {} wakeups {} of its {} waiters are still blocked (expected {})", obj, n + 1, still, q.len(), q.len() - n - 1));
             }
-            let _ = t;
         }
     }
     Ok(())
